@@ -78,6 +78,12 @@ pub fn generate(tier: &str, rng: &mut Prng) -> Vec<Case> {
             push(format!("ref_compress {l} {}", ints(&v)));
         }
     }
+    // the same clause on the path a signature takes (from_bytes, then verify): one padding bit set in a valid signature
+    let mut extra: Vec<Case> = vec![];
+    crate::c02::padding_bit_ops(tier, rng, &mut extra);
+    for c in extra {
+        push(c.op);
+    }
     // out-of-range values (the property does not speak about them; model agreement only) and the empty vector
     push("compress 10 -".into());
     push("ref_compress 10 -".into());
@@ -99,6 +105,7 @@ pub fn parse_opt(out: &str) -> Option<Option<Vec<i64>>> {
 
 pub fn oracle(op: &[&str], out: &str) -> Verdict {
     match op[0] {
+        "verify" => crate::c02::oracle(op, out),
         "decompress" => {
             let n: usize = op[1].parse().unwrap();
             if n == 0 {
